@@ -111,6 +111,12 @@ type Sched struct {
 	Trace    []Segment
 	Deadlock bool
 	MaxSegs  int // safety cap on the number of segments (0: none)
+	// MaxTotalSteps caps the yield sites passed by all tasks of the run
+	// together (0: none). Operations have their own step budget; this one
+	// catches goroutines of the code under test that loop outside any
+	// operation's budget. A run that hits it is Aborted: inconclusive.
+	MaxTotalSteps int64
+	totalSteps    int64
 	Aborted  bool
 	// Panics that escaped a task function. From a root task it is a harness
 	// bug (library panics are caught around every operation); from a child
@@ -128,6 +134,7 @@ type Sched struct {
 }
 
 const noLimit = int64(1) << 62
+const maxSegment = int64(4_000_000)
 
 var cur *Task // the task that is running; nil outside simulation
 
@@ -243,9 +250,14 @@ func YS(site uint32) {
 
 //go:norace
 func (t *Task) slow(site uint32, why uint8) {
+	if t.killed {
+		// the task is being torn down; code under test that recovers panics
+		// must not get to run on (every further yield site raises it again)
+		panic(killedT{})
+	}
 	if t.steps >= t.opEnd {
-		t.opEnd = noLimit
-		t.next = t.segEnd
+		// sticky until EndOp: an operation that recovers the panic (a worker
+		// wrapper with recover(), say) must not run on without a budget
 		panic(Diverged{})
 	}
 	t.yield(site, why, nil)
@@ -256,12 +268,8 @@ func (t *Task) slow(site uint32, why uint8) {
 //go:norace
 func (t *Task) yield(site uint32, why uint8, child *Task) {
 	if t.killed {
-		// the task is being unwound: deferred calls of the code under test
-		// may pass yield sites, but the task must not park again
-		if why == WhyBlocked {
-			panic(killedT{})
-		}
-		return
+		// the task is being unwound: it must not park again
+		panic(killedT{})
 	}
 	s := t.s
 	t.blocked = why == WhyBlocked
@@ -271,7 +279,7 @@ func (t *Task) yield(site uint32, why uint8, child *Task) {
 	raceEnable()
 	if code != 1 {
 		t.killed = true
-		t.segEnd, t.opEnd, t.next = noLimit, noLimit, noLimit
+		t.segEnd, t.opEnd, t.next = noLimit, noLimit, 0 // every yield site takes the slow path from now on
 		panic(killedT{})
 	}
 }
@@ -480,7 +488,7 @@ func (s *Sched) Run(fns []func()) {
 			s.killAll()
 			break
 		}
-		if s.MaxSegs > 0 && len(s.Trace) >= s.MaxSegs {
+		if (s.MaxSegs > 0 && len(s.Trace) >= s.MaxSegs) || (s.MaxTotalSteps > 0 && s.totalSteps > s.MaxTotalSteps) {
 			s.Aborted = true
 			s.killAll()
 			break
@@ -491,7 +499,7 @@ func (s *Sched) Run(fns []func()) {
 			for _, id := range live {
 				t := s.tasks[id]
 				before := t.stepsNow()
-				t.arm(0, 0)
+				t.arm(maxSegment, 0)
 				ev := s.handoff(t, 1)
 				s.record(t, before, ev)
 				// a polled task that passed any yield site did something
@@ -523,6 +531,9 @@ func (s *Sched) Run(fns []func()) {
 		}
 		t := s.tasks[id]
 		before := t.stepsNow()
+		if steps <= 0 || steps > maxSegment {
+			steps = maxSegment // never unlimited: a task that loops forever must come back
+		}
 		t.arm(steps, shared)
 		ev := s.handoff(t, 1)
 		s.record(t, before, ev)
@@ -534,6 +545,7 @@ var debugTrace = os.Getenv("VSIM_TRACE") != ""
 
 func (s *Sched) record(t *Task, before int64, ev event) {
 	n := ev.task.stepsNow() - before
+	s.totalSteps += n
 	if debugTrace {
 		fmt.Fprintf(os.Stderr, "seg task=%d steps=%d site=%d why=%d live=%d\n", t.ID, n, ev.site, ev.why, len(s.tasks))
 	}
